@@ -103,33 +103,47 @@ Fixpoint tag_last (f : list tree) (t : nat) : list tree :=
   | x :: r => x :: tag_last r t
   end.
 
+(* the helpers of `eval`, parametric in the evaluator `ev` for sub-expressions (= eval with the
+   remaining fuel) and in the iteration budget f *)
+Definition evaluator := atom -> bool -> expr -> nat -> list str -> sres.
+
+Definition many_with (ev : evaluator) (f : nat) (a : atom) (emit : bool) (n : name) (p : nat) (sg : list str) (acc : list tree) : sres :=
+  loop f (fun p sg => ev a emit (EIdent n) p sg) p sg acc.
+
+(* implicit whitespace between the elements of sequences and repetitions *)
+Definition skip_with (ev : evaluator) (f : nat) (a : atom) (emit : bool) (p : nat) (sg : list str) : sres :=
+  if negb (atom_eqb a NonAtomic) then SMatch p sg [] else
+  match has_rule (nm "WHITESPACE"), has_rule (nm "COMMENT") with
+  | false, false => SMatch p sg []
+  | true, false => many_with ev f a emit (nm "WHITESPACE") p sg []
+  | false, true => many_with ev f a emit (nm "COMMENT") p sg []
+  | true, true =>
+    match many_with ev f a emit (nm "WHITESPACE") p sg [] with
+    | SMatch p1 sg1 f1 =>
+      loop f (fun p sg => match ev a emit (EIdent (nm "COMMENT")) p sg with
+                          | SMatch p2 sg2 f2 => many_with ev f a emit (nm "WHITESPACE") p2 sg2 f2
+                          | r => r end) p1 sg1 f1
+    | r => r
+    end
+  end.
+
+(* one more iteration of a repetition: [skip ; x]; a unit whose x fails contributes nothing *)
+Definition rep_unit (ev : evaluator) (f : nat) (a : atom) (emit : bool) (x : expr) (p : nat) (sg : list str) : sres :=
+  match skip_with ev f a emit p sg with
+  | SMatch p1 sg1 f1 =>
+    match ev a emit x p1 sg1 with SMatch p2 sg2 f2 => SMatch p2 sg2 (f1 ++ f2) | r => r end
+  | r => r
+  end.
+Definition rep_from_with (ev : evaluator) (f : nat) (a : atom) (emit : bool) (x : expr) (p : nat) (sg : list str) (acc : list tree) : sres :=
+  loop f (rep_unit ev f a emit x) p sg acc.
+
 Fixpoint eval (fuel : nat) (a : atom) (emit : bool) (e : expr) (p : nat) (sg : list str) {struct fuel} : sres :=
   match fuel with
   | O => SFuel
   | S f =>
     let ev := eval f in
-    (* implicit whitespace *)
-    let many := fun (n : name) p sg acc => loop f (fun p sg => ev a emit (EIdent n) p sg) p sg acc in
-    let skip := fun p sg =>
-      if negb (atom_eqb a NonAtomic) then SMatch p sg [] else
-      match has_rule (nm "WHITESPACE"), has_rule (nm "COMMENT") with
-      | false, false => SMatch p sg []
-      | true, false => many (nm "WHITESPACE") p sg []
-      | false, true => many (nm "COMMENT") p sg []
-      | true, true =>
-        match many (nm "WHITESPACE") p sg [] with
-        | SMatch p1 sg1 f1 =>
-          loop f (fun p sg => match ev a emit (EIdent (nm "COMMENT")) p sg with
-                              | SMatch p2 sg2 f2 => many (nm "WHITESPACE") p2 sg2 f2
-                              | r => r end) p1 sg1 f1
-        | r => r
-        end
-      end in
-    let rep_from := fun (x : expr) p sg acc =>
-      loop f (fun p sg => match skip p sg with
-                          | SMatch p1 sg1 f1 =>
-                            match ev a emit x p1 sg1 with SMatch p2 sg2 f2 => SMatch p2 sg2 (f1 ++ f2) | r => r end
-                          | r => r end) p sg acc in
+    let skip := skip_with ev f a emit in
+    let rep_from := rep_from_with ev f a emit in
     match e with
     | EStr s => match lit s p with Some q => SMatch q sg [] | None => SFail end
     | EInsens s =>
